@@ -12,7 +12,7 @@ EXPLANATION = ("AABB, Vec and the closed-form primitives of geometry/rotations/m
 BOUNDS = {
     "quick": "boxes/points in dimension 1-2 (arbitrary reals, point boxes and empty overlaps included); 3-D vectors for "
              "cross/determinant/rotation identities; arbitrary real angles; every prior numpy error configuration in "
-             "{ignore,warn,raise}^4 for the error-state check",
+             "{ignore,warn,raise}^4 for the error-state check; integer-typed vectors for rotate_around_axis; results of union / intersection padded afterwards",
     "thorough": "boxes in dimension 1-3; plus cotangent and circumcentre identities (nested normalisations, depth obligations)",
 }
 OUTSIDE = ("maths.roots (cmath), match_rotation (scipy), additivity of rotation composition (needs addition formulas), "
